@@ -335,6 +335,49 @@ def shufflesUsed (cfg : Cfg) (ns : List Ins) : Nat :=
   let p := pass1 cfg ns
   p.rounds + (pass2 cfg.alap cfg.allowPerm ns (realO2 cfg.shufs p)).1.length
 
+/-! ## User constraint functions (`Scheduler(constraint_functions=…)`)
+
+`apply_constraint(ind2, ind1, nodes)` is the conjunction of the verdicts of the constraint functions; `sh i2 i1` below
+stands for `not apply_constraint(i2, i1, nodes)` (the arguments in the order of the call).  The definitions above are the
+instances `sh := shareIdx ns` (the default list `[qubit_constraint]`); the first pass does not consult the constraints. -/
+
+def pass2W (sh : Nat → Nat → Bool) (alap allowPerm : Bool) (ns : List Ins) (O2 : Nat → List Nat → List Nat) :
+    List (List Nat) × Edges :=
+  topo ns.length (passEdges alap allowPerm ns).has sh true O2
+
+def cyclesGenW (sh : Nat → Nat → Bool) (alap allowPerm : Bool) (ns : List Ins) (O2 : Nat → List Nat → List Nat) :
+    List (List Nat) :=
+  let c := (pass2W sh alap allowPerm ns O2).1
+  if alap then c.reverse else c
+
+def finalEdgesW (sh : Nat → Nat → Bool) (alap allowPerm fx : Bool) (ns : List Ins) (O2 : Nat → List Nat → List Nat) : Edges :=
+  let r := pass2W sh alap allowPerm ns O2
+  let e2 := passEdges alap allowPerm ns ++ r.2 ++ (if fx then crossEdges sh r.1 else [])
+  if alap then e2.rev else e2
+
+def finalOrderW (sh : Nat → Nat → Bool) (alap allowPerm : Bool) (ns : List Ins) (O2 : Nat → List Nat → List Nat) : List Nat :=
+  let c := (pass2W sh alap allowPerm ns O2).1
+  if alap then c.reverse.flatten else c.flatten
+
+def startsGenW (sh : Nat → Nat → Bool) (alap allowPerm fx : Bool) (ns : List Ins) (O2 : Nat → List Nat → List Nat) : List Int :=
+  let d := distStart ns.length (finalEdgesW sh alap allowPerm fx ns O2).has (durIdx ns) (finalOrderW sh alap allowPerm ns O2)
+  (List.range ns.length).map (fun i => d.get i - durIdx ns i)
+
+def gateCyclesW (sh : Nat → Nat → Bool) (cfg : Cfg) (ns : List Ins) : List (List Nat) :=
+  cyclesGenW sh cfg.alap cfg.allowPerm ns (realO2 cfg.shufs (pass1 cfg ns))
+
+def pulseStartsW (sh : Nat → Nat → Bool) (cfg : Cfg) (ns : List Ins) : List Int :=
+  startsGenW sh cfg.alap cfg.allowPerm cfg.fx ns (realO2 cfg.shufs (pass1 cfg ns))
+
+def shufflesUsedW (sh : Nat → Nat → Bool) (cfg : Cfg) (ns : List Ins) : Nat :=
+  let p := pass1 cfg ns
+  p.rounds + (pass2W sh cfg.alap cfg.allowPerm ns (realO2 cfg.shufs p)).1.length
+
+/-- two instructions that a constraint forbids to run in parallel (`sh`, either order of the arguments) have
+intersecting execution intervals -/
+def overlapsW (sh : Nat → Nat → Bool) (ns : List Ins) (st : List Int) (i j : Nat) : Bool :=
+  (sh i j || sh j i) && decide (st.getD i 0 < st.getD j 0 + durIdx ns j) && decide (st.getD j 0 < st.getD i 0 + durIdx ns i)
+
 /-! ## Timetable predicates (C11) -/
 
 /-- instructions `i`, `j` share a qubit and their execution intervals intersect -/
